@@ -356,7 +356,14 @@ func canonAccepted(c Case, rows []drow, late map[int]bool) string {
 		}
 	}
 	sort.Strings(parts)
-	return strings.Join(parts, " ")
+	// a re-delivery that only adds late rows has the same accepted contents: compare as a set
+	uniq := parts[:0]
+	for i, p := range parts {
+		if i == 0 || p != parts[i-1] {
+			uniq = append(uniq, p)
+		}
+	}
+	return strings.Join(uniq, " ")
 }
 
 // runIdle: IDLETIMEOUT 1.5 s, rows every ~30 ms for about 2 s whose timestamps never exceed the first one: the source
